@@ -92,12 +92,14 @@ def rec_class():
         a = np.asarray(X, dtype="float64")
         return sum(((c + 1) * fr(a[r, c]) for r in range(a.shape[0]) for c in range(a.shape[1])), Fraction(0)) / 2
 
-    def fh_desc(fh):
+    def fh_desc(fh, cutoff):
+        """the time points a horizon argument denotes (absolute labels), however it is represented"""
         if fh is None:
             return "nofh"
-        if not isinstance(fh, ForecastingHorizon):
-            return "raw" + show_ints(np.atleast_1d(np.asarray(fh)))
-        return ("rel" if fh.is_relative else "") + show_ints(fh.to_pandas())
+        try:
+            return show_ints(check_fh(fh).to_absolute(cutoff).to_pandas())
+        except Exception as e:
+            return "badfh"
 
     def ser(y):
         return "%s:%s" % (show_ints(y.index), show_rats(float(v) for v in np.asarray(y, dtype="float64")))
@@ -123,7 +125,7 @@ def rec_class():
                 raise ERR_EXC[self.fail[1]]("injected failure")
 
         def fit(self, y, X=None, fh=None, tag=None):
-            self.log.append("F~%s~%s~%s~%s" % (ser(y), frame(X), fh_desc(fh), "none" if tag is None else int(tag)))
+            self.log.append("F~%s~%s~%s~%s" % (ser(y), frame(X), fh_desc(fh, y.index[-1] if len(y) else None), "none" if tag is None else int(tag)))
             self._tick()
             if fh is not None:
                 fh = check_fh(fh)             # an empty horizon is a ValueError, as in every sktime forecaster
@@ -146,7 +148,7 @@ def rec_class():
             return self
 
         def predict(self, fh=None, X=None, return_pred_int=False, alpha=0.05):
-            self.log.append("P~%s~%s" % (fh_desc(fh), frame(X)))
+            self.log.append("P~%s~%s" % (fh_desc(fh, self.cutoff), frame(X)))
             self._tick()
             self.check_is_fitted()
             fh = check_fh(fh)
@@ -499,6 +501,9 @@ def oracle(c, out):
             break
         if X is not None and fu[i][2] != _frame(X.iloc[tr]):
             fails.append(("evaluate:exogenous-training-rows-differ-from-window", "fold %d: got %s" % (i, fu[i][2])))
+            break
+        if want_kind == "F" and fu[i][4] != ("none" if c.get("fp") is None else str(c["fp"])):
+            fails.append(("evaluate:fit-params-not-passed", "fold %d: fit received %s" % (i, fu[i][4])))
             break
         if pr[i][1] != show_ints(y.index[te]):
             fails.append(("evaluate:predicted-other-than-the-test-points", "fold %d: asked %s, test points %s" % (i, pr[i][1], show_ints(y.index[te]))))
